@@ -140,7 +140,7 @@ def activated_for(prog, join_ref):
 
 def ideal(prog) -> dict:
     st: dict[str, str] = {}
-    order = [s["ref"] for s in prog["stages"] if not s["parent"]]
+    order = [s["ref"] for s in prog["stages"] if not s["parent"] and not s.get("instk")]
     fwd_skipped, fwd_targets = forward_jumps(prog)
     or_skipped = split_skipped(prog)
     # stages are listed in a topological order by construction; iterate until stable anyway
@@ -194,7 +194,10 @@ def ideal(prog) -> dict:
             core = [stage_from_tasks(prog, k) for k in prog["stages"] if k["parent"] == par["ref"] and k["owner"] == "BEFORE"]
             core += [task_result(prog, par, t) for t in par["tasks"]]
             st[sd["ref"]] = stage_from_tasks(prog, sd) if all(c in ("SUCCEEDED", "FAILED_CONTINUE", "SKIPPED") for c in core) else "ABSENT"
-    vals = {v for k, v in st.items() if not _stage(prog, k)["parent"]}
+    for sd in prog["stages"]:      # instances that only AddMultiInstance creates (WCP-15): not there without it
+        if sd.get("instk"):
+            st[sd["ref"]] = "ABSENT"
+    vals = {v for k, v in st.items() if not _stage(prog, k)["parent"] and v != "ABSENT"}
     if "TERMINAL" in vals:
         wf = "TERMINAL"
     elif "CANCELED" in vals:
